@@ -17,13 +17,14 @@ from __future__ import annotations
 import hashlib
 import re
 import struct
+import zlib
 from typing import Any, Dict, List, Optional, Tuple
 
 from harness import pdfwriter as W
 from harness.pdfwriter import Ref, Stream, Name
 
 # ----------------------------------------------------------------------------- fixed numbering
-CATALOG, PAGES, SHARED_RES = 1, 2, 9
+CATALOG, PAGES, SHARED_RES, SHARED_CONTENT = 1, 2, 9, 8
 FONT_BASE = 3            # fonts F1..F4 are objects 3..6 in every document
 PAGE_BASE = 10           # page i: contents 10+3i (and 11+3i), page object 12+3i
 AUX_BASE = 40            # font k aux objects 40+10k ..
@@ -177,19 +178,67 @@ class FontDesc:
         self.samples: List[bytes] = []
 
 
-def gen_encoding(rng, fd: FontDesc, alloc) -> Any:
+class Plan:
+    """Systematic part of a pool: every base-encoding spelling (the four known names, an unknown
+    name, none) occurs WITH non-empty /Differences, as a plain name and absent, every simple font
+    type and every predefined CMap is used, before anything is sampled freely."""
+
+    def __init__(self, rng) -> None:
+        n = len(BASE_ENC_MENU)
+        order = list(range(n))
+        rng.shuffle(order)
+        self.enc: List[Tuple[str, Optional[int]]] = []
+        for b in order:
+            self.enc.append(("dict", b))
+        self.enc.insert(rng.randrange(len(self.enc) + 1), ("dict", None))
+        self.enc.insert(rng.randrange(len(self.enc) + 1), ("none", None))
+        for b in order:
+            self.enc.append(("name", b))
+        self.simple = ["std14", "type1", "truetype", "type3"]
+        rng.shuffle(self.simple)
+        self.simple_i = 0
+        self.cmaps = list(range(len(CMAPS)))
+        rng.shuffle(self.cmaps)
+        self.other_i = 0
+        self.seen: List[str] = []
+
+    def next_enc(self):
+        return self.enc.pop(0) if self.enc else None
+
+    def next_simple(self) -> str:
+        self.simple_i += 1
+        return self.simple[self.simple_i % len(self.simple)]
+
+    def next_other(self):
+        """alternates Identity-H and the predefined CMaps"""
+        self.other_i += 1
+        if self.other_i % 3 == 0:
+            return ("cid-identity", None)
+        return ("cid-predef", self.cmaps[self.other_i % len(self.cmaps)])
+
+
+def gen_encoding(rng, fd: FontDesc, alloc, plan: Optional[Plan] = None) -> Any:
+    forced = plan.next_enc() if plan is not None else None
     mode = rng.random()
     fd.base = 0
+    if forced is not None:
+        mode = {"none": 0.0, "name": 0.2, "dict": 0.9}[forced[0]]
     if mode < 0.15:
+        if plan is not None:
+            plan.seen.append("enc:absent")
         return None                      # no /Encoding: StandardEncoding
     if mode < 0.4:
-        fd.base = rng.randrange(len(BASE_ENC_MENU))
+        fd.base = rng.randrange(len(BASE_ENC_MENU)) if forced is None else forced[1]
+        if plan is not None:
+            plan.seen.append("enc:name:" + BASE_ENC_MENU[fd.base])
         return BASE_ENC_MENU[fd.base]
     enc: Dict[str, Any] = {"Type": "Encoding"}
-    if rng.random() < 0.8:
-        fd.base = rng.randrange(len(BASE_ENC_MENU))
+    if (rng.random() < 0.8 and forced is None) or (forced is not None and forced[1] is not None):
+        fd.base = rng.randrange(len(BASE_ENC_MENU)) if forced is None else forced[1]
         enc["BaseEncoding"] = BASE_ENC_MENU[fd.base]
-    nd = rng.choice([0, 1, 2, 3, 5])
+    nd = rng.choice([0, 1, 2, 3, 5]) if forced is None else rng.choice([2, 3, 5])
+    if plan is not None:
+        plan.seen.append("enc:dict:%s:%s" % (enc.get("BaseEncoding", "nobase"), "diffs" if nd else "nodiffs"))
     diff: List[Any] = []
     code = None
     for _ in range(nd):
@@ -223,19 +272,27 @@ def gen_simple_tounicode(rng, fd: FontDesc, alloc) -> None:
     fd.obj["ToUnicode"] = Ref(n)
 
 
-def gen_font(rng, alloc) -> FontDesc:
+def gen_font(rng, alloc, plan: Optional[Plan] = None, force: Optional[str] = None) -> FontDesc:
+    """force: 'simple' (next simple type + next planned encoding) | 'other' (next composite font)"""
     fd = FontDesc()
     r = rng.random()
+    forced_cmap = None
+    if force == "simple" and plan is not None:
+        r = {"std14": 0.1, "type1": 0.3, "truetype": 0.3, "type3": 0.6}[plan.next_simple()]
+    elif force == "other" and plan is not None:
+        k, forced_cmap = plan.next_other()
+        r = 0.7 if k == "cid-identity" else 0.9
     if r < 0.25:
         fd.kind = "std14"
         fd.obj = {"Type": "Font", "Subtype": "Type1", "BaseFont": rng.choice(STD14)}
-        enc = gen_encoding(rng, fd, alloc)
+        enc = gen_encoding(rng, fd, alloc, plan)
         if enc is not None:
             fd.obj["Encoding"] = enc
         if rng.random() < 0.25:
             gen_simple_tounicode(rng, fd, alloc)
     elif r < 0.55:
-        fd.kind = rng.choice(["type1", "truetype"])
+        fd.kind = rng.choice(["type1", "truetype"]) if force != "simple" else plan.simple[plan.simple_i % 4] \
+            if plan.simple[plan.simple_i % 4] in ("type1", "truetype") else "type1"
         first = rng.choice([0, 32])
         widths = [rng.choice([250, 333, 500, 556, 722, 1000]) for _ in range(256 - first)]
         desc = {"Type": "FontDescriptor", "FontName": "ABCDEF+Gen%d" % rng.randrange(4), "Flags": 32,
@@ -258,7 +315,7 @@ def gen_font(rng, alloc) -> FontDesc:
             fd.obj["Widths"] = Ref(n)
         else:
             fd.obj["Widths"] = widths
-        enc = gen_encoding(rng, fd, alloc)
+        enc = gen_encoding(rng, fd, alloc, plan)
         if enc is None:
             enc = "StandardEncoding"     # keep /Encoding present: no FontFile recovery path
         fd.obj["Encoding"] = enc
@@ -270,7 +327,7 @@ def gen_font(rng, alloc) -> FontDesc:
                   "FontMatrix": [0.001, 0, 0, 0.001, 0, 0], "CharProcs": {}, "FirstChar": 0, "LastChar": 255,
                   "Widths": [rng.choice([400, 600, 800])] * 256}
         fd.diffs = []
-        enc = gen_encoding(rng, fd, alloc)
+        enc = gen_encoding(rng, fd, alloc, plan)
         if enc is not None:
             fd.obj["Encoding"] = enc
     elif r < 0.8:
@@ -300,7 +357,7 @@ def gen_font(rng, alloc) -> FontDesc:
     else:
         fd.kind = "cid-predef"
         fd.multibyte = True
-        name, ordering, samples = rng.choice(CMAPS)
+        name, ordering, samples = rng.choice(CMAPS) if forced_cmap is None else CMAPS[forced_cmap]
         dn = alloc()
         dfont = {"Type": "Font", "Subtype": "CIDFontType0", "BaseFont": "GenCJK",
                  "CIDSystemInfo": {"Registry": b"Adobe", "Ordering": ordering.encode(), "Supplement": 2},
@@ -349,17 +406,79 @@ class Doc:
         self.proc_reads: List[List[int]] = []  # per page: objects read while interpreting it
         self.page_fontids: List[List[int]] = []  # per page: font object ids handed to get_font (0: direct)
         self.page_fonts: List[List[Tuple[str, int, FontDesc]]] = []   # (scope/resname, objid, desc)
+        self.page_gops: List[List[Tuple[int, int]]] = []
         self.page_shows: List[List[Tuple[FontDesc, bytes]]] = []   # in paint order, forms included
         self.names: List[str] = []
         self.all_objnums: List[int] = []
         self.features: List[str] = []
+        self.plan_seen: List[str] = []
 
 
 def content_names(b: bytes) -> List[str]:
     return [m.decode("latin-1") for m in re.findall(rb"/([A-Za-z0-9+\-_.]+)", b)]
 
 
-def gen_doc(rng, idx: int) -> Doc:
+GOP_CODE = {"re": 0, "m": 1, "l": 2, "h": 3, "paint": 4, "n": 5, "q": 6, "Q": 7, "w": 8, "operand": 9}
+
+
+def gen_gops(rng, page_index: int, doc_index: int):
+    """Graphics operators around the text of a page: (prefix bytes, prefix ops, suffix bytes, suffix ops).
+    Page 0 of every document ENDS with path segments that are never painted, usually an unbalanced q, a
+    changed line width and dangling operands; later pages BEGIN with a stray Q and painted shapes.
+    None of this may reach the next page (init_state)."""
+    def shape(painted: bool, ox: float):
+        k = rng.choice(["re", "ml", "mllh"])
+        x, y = ox + rng.randint(0, 40), 20 + rng.randint(0, 30) + 0.5
+        if k == "re":
+            b, ops = b"%s %s %d %d re\n" % (W.ser_real(x), W.ser_real(y), rng.randint(20, 60), rng.randint(10, 30)), [("re", 0)]
+        elif k == "ml":
+            b, ops = b"%s %s m %s %s l\n" % (W.ser_real(x), W.ser_real(y), W.ser_real(x + 33), W.ser_real(y + 7)), \
+                [("m", 0), ("l", 0)]
+        else:
+            b = b"%s %s m %s %s l %s %s l h\n" % (W.ser_real(x), W.ser_real(y), W.ser_real(x + 30), W.ser_real(y),
+                                                  W.ser_real(x + 11), W.ser_real(y + 19))
+            ops = [("m", 0), ("l", 0), ("l", 0), ("h", 0)]
+        if painted:
+            b += rng.choice([b"S\n", b"f\n", b"B\n", b"f*\n"])
+            ops.append(("paint", 0))
+        return b, ops
+
+    pre_b, pre, suf_b, suf = b"", [], b"", []
+    if page_index >= 1 or rng.random() < 0.3:
+        if rng.random() < 0.6:
+            pre_b += b"Q\n"
+            pre.append(("Q", 0))
+        if rng.random() < 0.4:
+            v = rng.choice([2, 3, 5])
+            pre_b += b"%d w\n" % v
+            pre.append(("w", v))
+        for _ in range(rng.randint(1, 2)):
+            b, ops = shape(True, 300)
+            pre_b += b
+            pre += ops
+        if rng.random() < 0.3:
+            b, ops = shape(False, 420)
+            pre_b += b + b"n\n"
+            pre += ops + [("n", 0)]
+    if page_index == 0 or rng.random() < 0.4:
+        if rng.random() < 0.6:
+            suf_b += b"q\n"
+            suf.append(("q", 0))
+        if rng.random() < 0.6:
+            v = rng.choice([4, 7, 9])
+            suf_b += b"%d w 0.3 G\n" % v
+            suf.append(("w", v))
+        b, ops = shape(False, 480)
+        suf_b += b
+        suf += ops
+        if rng.random() < 0.5:
+            v = rng.randint(1, 9)
+            suf_b += b"%d %d\n" % (v, v + 1)
+            suf += [("operand", v), ("operand", v + 1)]
+    return pre_b, pre, suf_b, suf
+
+
+def gen_doc(rng, idx: int, plan: Optional[Plan] = None) -> Doc:
     d = Doc()
     d.idx = idx
     d.npages = rng.choice([1, 2, 2, 3, 3, 4])
@@ -377,13 +496,14 @@ def gen_doc(rng, idx: int) -> Doc:
 
     fonts: List[FontDesc] = []
     for k in range(nfonts):
-        fd = gen_font(rng, mk_alloc(k))
+        # font 0: simple font with the next planned encoding; font 1: next planned composite font
+        fd = gen_font(rng, mk_alloc(k), plan, "simple" if k in (0, 2) else "other" if k == 1 else None)
         fonts.append(fd)
         objs[FONT_BASE + k] = fd.obj
         objs.update(fd.aux)
         d.fonts[FONT_BASE + k] = fd
     # a direct (no object id) font, used under the resource name F9 on some pages
-    direct_fd = gen_font(rng, mk_alloc(5))
+    direct_fd = gen_font(rng, mk_alloc(5), plan, "simple")
     objs.update(direct_fd.aux)
 
     def font_resources(choice: List[int], with_direct: bool) -> Tuple[Dict[str, Any], List[Tuple[str, int, FontDesc]]]:
@@ -400,8 +520,9 @@ def gen_doc(rng, idx: int) -> Doc:
 
     res_mode = rng.choice(["own", "own", "shared", "inherited"])
     d.features.append("res:" + res_mode)
-    common_choice = rng.sample(range(nfonts), rng.randint(1, nfonts))
-    common_res, common_table = font_resources(common_choice, rng.random() < 0.3)
+    common_choice = [0] + rng.sample(range(1, nfonts), rng.randint(0, nfonts - 1))
+    rng.shuffle(common_choice)
+    common_res, common_table = font_resources(common_choice, rng.random() < 0.4)
 
     # forms: own resources where /F1 is (usually) another font than the page's /F1
     nforms = rng.choice([0, 0, 1, 2])
@@ -431,15 +552,31 @@ def gen_doc(rng, idx: int) -> Doc:
     cs_ops = {None: b"/CS0 cs 0.5 scn\n", "DeviceRGB": b"/CS0 cs 0.1 0.2 0.3 scn\n",
               "DeviceCMYK": b"/CS0 cs 0.1 0.2 0.3 0.4 scn\n", "DeviceGray": b"/CS0 cs 0.25 scn\n"}[cs_name]
     d.features.append("cs:" + str(cs_name))
+    CS_UNDEF = b"/CS0 cs 0.5 scn\n"
+    # content streams: optionally Flate-compressed; optionally one stream object shared by all pages
+    flate = rng.random() < 0.5
+    shared_prefix = rng.random() < 0.5
+    raw_names: set = set()
+    if shared_prefix:
+        import zlib as _z
+        pdata = rng.choice([b"0.2 g\n", b"0.9 0.1 0.1 rg\n", b"0.4 G\n"])
+        objs[SHARED_CONTENT] = Stream({"Filter": "FlateDecode"}, _z.compress(pdata)) if flate else Stream({}, pdata)
+    d.features.append("content:%s%s" % ("flate" if flate else "plain", "+shared" if shared_prefix else ""))
     kids = []
     line_no = 0
     used_form_nested = False
+    # the font the interpreter falls back to for a resource name the page does not define: get_font(None, {})
+    undef_fd = FontDesc()
+    undef_fd.kind = "type1"
+    prev_font_names: List[str] = []
+    prev_xobj_names: List[str] = []
     for i in range(d.npages):
         cnum = PAGE_BASE + 3 * i
         pnum = cnum + 2
         if res_mode == "own":
-            ch = rng.sample(range(nfonts), rng.randint(1, nfonts))
-            res, table = font_resources(ch, rng.random() < 0.25)
+            ch = [0] + rng.sample(range(1, nfonts), rng.randint(0, nfonts - 1))
+            rng.shuffle(ch)
+            res, table = font_resources(ch, rng.random() < 0.4)
         else:
             res, table = common_res, common_table
         page_reads: List[int] = []
@@ -461,11 +598,18 @@ def gen_doc(rng, idx: int) -> Doc:
         # content
         y = 760.0 - rng.choice([0, 3.5, 9.25])
         parts: List[bytes] = []
-        cur = bytearray(cs_ops)
+        pre_b, pre_ops, suf_b, suf_ops = gen_gops(rng, i, idx)
+        # with own resources only every other page defines /CS0 (csmap is per page)
+        cs_here = cs_name if (res_mode != "own" or i % 2 == 0) else None
+        cur = bytearray((cs_ops if cs_here else CS_UNDEF) + pre_b)
+        if rng.random() < 0.5:
+            cur += b"BT 40 31.5 Td (leak) Tj ET\n"      # no Tf on this page yet: shows nothing
         nlines = rng.randint(2, 4)
         xobjs: Dict[str, Any] = {}
         for ln in range(nlines):
             nm, oid, fd = rng.choice(table)
+            if ln == 0:
+                nm, oid, fd = next(e for e in table if e[2] is fonts[0])     # the planned font is always shown
             s = font_string(rng, fd)
             size = rng.choice([9, 10, 12, 14.5])
             x = XS[(line_no * 7 + idx * 3) % len(XS)]
@@ -496,22 +640,46 @@ def gen_doc(rng, idx: int) -> Doc:
             if ln == 0 and nlines > 2 and rng.random() < 0.3:
                 parts.append(bytes(cur))
                 cur = bytearray()
+        # names that only the PREVIOUS page defines: fontmap / xobjmap / csmap are per page
+        here = [nm_ for nm_, _, _ in table]
+        for nm_ in prev_font_names:
+            if nm_ not in here and nm_ != "F9":
+                s_ = bytes(rng.choice(range(65, 91)) for _ in range(3))
+                cur += b"BT /%s 10 Tf 300.5 %s Td %s Tj ET\n" % (nm_.encode(), W.ser_real(775.25 - 3 * i), W.ser_string(s_))
+                pfonts.append(("undef:" + nm_, 0, undef_fd))
+                fontids.append(0)
+                shows.append((undef_fd, s_))
+                d.features.append("probe:font-of-previous-page")
+                break
+        if not xobjs and prev_xobj_names:
+            cur += b"q 1 0 0 1 200 400 cm /%s Do Q\n" % prev_xobj_names[0].encode()
+            d.features.append("probe:xobject-of-previous-page")
+        prev_font_names, prev_xobj_names = here, sorted(xobjs)
+        cur += suf_b
         parts.append(bytes(cur))
+        d.page_gops.append([(GOP_CODE[k], v) for k, v in pre_ops + suf_ops])
+        raw_names.update(content_names(b"".join(parts)))
         page: Dict[str, Any] = {"Type": "Page", "Parent": Ref(PAGES), "MediaBox": [0, 0, 612, 792]}
         if rng.random() < 0.2:
             page["Rotate"] = rng.choice([90, 180, 270])
-        if len(parts) == 1:
-            objs[cnum] = Stream({}, parts[0])
+        def cstream(data: bytes) -> Stream:
+            if flate:
+                return Stream({"Filter": "FlateDecode"}, zlib.compress(data))
+            return Stream({}, data)
+        if len(parts) == 1 and not shared_prefix:
+            objs[cnum] = cstream(parts[0])
             page["Contents"] = Ref(cnum)
             walk.append(cnum)             # PDFPage.__init__ resolves a single /Contents reference
         else:
-            objs[cnum] = Stream({}, parts[0])
-            objs[cnum + 1] = Stream({}, parts[1])
-            page["Contents"] = [Ref(cnum), Ref(cnum + 1)]
-            page_reads.extend([cnum, cnum + 1])
+            refs = [Ref(SHARED_CONTENT)] if shared_prefix else []
+            for j, part in enumerate(parts):
+                objs[cnum + j] = cstream(part)
+                refs.append(Ref(cnum + j))
+            page["Contents"] = refs
+            page_reads.extend(r.n for r in refs)
         full_res = {"Font": res, "ProcSet": ["PDF", "Text"]}
-        if cs_name:
-            full_res["ColorSpace"] = {"CS0": cs_name}
+        if cs_here:
+            full_res["ColorSpace"] = {"CS0": cs_here}
         if xobjs:
             full_res["XObject"] = xobjs
         if res_mode == "own" or xobjs:
@@ -558,6 +726,7 @@ def gen_doc(rng, idx: int) -> Doc:
     names = set()
     for n, o in objs.items():
         names.update(content_names(W.ser(o.d) + o.data if isinstance(o, Stream) else W.ser(o)))
+    names.update(raw_names)
     names.update(content_names(d.data))      # trailer, /Length, xref-stream and /Encrypt keys
     d.names = sorted(names)
     for fd in list(d.fonts.values()) + [direct_fd]:
@@ -570,4 +739,8 @@ def gen_doc(rng, idx: int) -> Doc:
 
 
 def gen_pool(rng, size: int) -> List[Doc]:
-    return [gen_doc(rng, i) for i in range(size)]
+    plan = Plan(rng)
+    docs = [gen_doc(rng, i, plan) for i in range(size)]
+    for d in docs:
+        d.plan_seen = plan.seen
+    return docs
